@@ -382,6 +382,8 @@ def run_check(prop, tier):
         'wall_s': round(wall, 2),
         'violations': n_viol,
     }
+    if hasattr(engine, 'summarise'):
+        ev['coverage'].update(jsonable(engine.summarise(stats)))
     os.makedirs(os.path.join(OUT, 'evidence'), exist_ok=True)
     with open(os.path.join(OUT, 'evidence', prop + '.json'), 'w') as f:
         json.dump(ev, f, indent=1, sort_keys=True)
